@@ -4,7 +4,7 @@
        declared values, non-random fields are unchanged; the outcome matches satisfiability decided by
        brute-force enumeration of the random fields. *)
 From Coq Require Import ZArith List Bool.
-From PV Require Import Common.Bits Rand.BV Rand.Expr Rand.Lower Rand.Typing Rand.World.
+From PV Require Import Common.Bits Rand.BV Rand.Expr Rand.Lower Rand.Typing Rand.World Rand.Soft.
 Import ListNotations.
 Open Scope Z_scope.
 
@@ -20,7 +20,9 @@ Record scase := mkSC {
   sc_vars : list nat;                 (* leaves that were presented to the solver as variables *)
   sc_consts : list nat;               (* leaves that were presented as constants *)
   sc_pre : list nat;                  (* objects whose pre_randomize ran, in order *)
-  sc_post : list nat                  (* objects whose post_randomize ran, in order *)
+  sc_post : list nat;                 (* objects whose post_randomize ran, in order *)
+  sc_batches : list (list bvterm);    (* per solver instance: the terms assumed between its first and second Sat() *)
+  sc_domains : list (option (list (Z * Z)))   (* per leaf: the value ranges the library inferred for steering (None = not recorded) *)
 }.
 
 Definition rho_of (vals : list Z) : nat -> Z := fun id => nth id vals 0.
@@ -138,9 +140,97 @@ Definition sat3 (c : scase) : Z :=
     else if forallb (fun r => match r with Some false => true | _ => false end) rs then 0
     else 2.
 
+(* ---- soft constraints (C05) ---- *)
+Definition sc_soft_items (c : scase) : list softitem := by_priority (soft_items (sc_hard c)).
+Definition item_mentions (it : softitem) : bool := e_mentions (so_expr it) || existsb e_mentions (so_guards it).
+Definition model_soft_terms (c : scase) : list bvterm :=
+  map (lower_soft (sc_G c) (sc_B c)) (filter item_mentions (sc_soft_items c)).
+Fixpoint is_subseq (a b : list bvterm) : bool :=       (* a is a subsequence of b *)
+  match a, b with
+  | [], _ => true
+  | _, [] => false
+  | x :: r, y :: t => if bvterm_eqb x y then is_subseq r t else is_subseq a t
+  end.
+(* (A) the soft batches handed to the solver are the model's soft terms, each batch in priority order *)
+Definition soft_terms_ok (c : scase) : bool :=
+  let m := model_soft_terms c in
+  let batches := filter (fun b => negb (match b with [] => true | _ => false end) &&
+                                  forallb (fun t => existsb (bvterm_eqb t) m) b) (sc_batches c) in
+  forallb (fun b => is_subseq b m) batches &&
+  (if sc_outcome c =? 0 then multiset_eqb m (concat batches) else submultiset (concat batches) m).
+(* (B) the returned values honour a priority-greedy maximal set: a violated soft constraint cannot be honoured together with
+   the hard constraints and the higher-priority soft constraints that are honoured *)
+Definition wt_item (G : fenv) (it : softitem) : bool :=
+  forallb (fun g => wt_cond G g && (built_width G (-1) g =? 1)) (so_guards it) &&
+  wt_cond G (so_expr it) && (built_width G (-1) (so_expr it) =? 1).
+Fixpoint greedy_ok (c : scase) (asg : list (list Z)) (kept : list softitem) (rest : list softitem) : bool :=
+  match rest with
+  | [] => true
+  | it :: t =>
+    match soft_holds (sc_G c) (rho_of (sc_after c)) it with
+    | Some true => greedy_ok c asg (it :: kept) t
+    | Some false =>
+      negb (existsb (fun vals =>
+              match holds_all (sc_G c) (rho_of vals) (sc_hard c) with
+              | Some true => forallb (fun k => match soft_holds (sc_G c) (rho_of vals) k with Some true => true | _ => false end)
+                                     (it :: kept)
+              | _ => false
+              end) asg)
+      && greedy_ok c asg kept t
+    | None => greedy_ok c asg kept t
+    end
+  end.
+Definition soft_values_ok (c : scase) : bool :=
+  if negb (sc_outcome c =? 0) || negb (all_wt c) || (8192 <? space c) ||
+     negb (forallb (wt_item (sc_G c)) (sc_soft_items c)) then true
+  else greedy_ok c (all_assignments c) [] (sc_soft_items c).
+
+(* ---- inferred domains (C14) ---- *)
+Definition in_dom (d : list (Z * Z)) (v : Z) : bool := existsb (fun r => (fst r <=? v) && (v <=? snd r)) d.
+(* does a statement mention leaf id? *)
+Fixpoint e_uses (id : nat) (e : expr) : bool :=
+  match e with
+  | ELit _ _ _ => false
+  | EField j => Nat.eqb id j
+  | EBin _ l r => e_uses id l || e_uses id r
+  | ENot e => e_uses id e
+  | EReset e => e_uses id e
+  | EPart j _ _ => Nat.eqb id j
+  end.
+Fixpoint s_uses (id : nat) (s : stmt) : bool :=
+  let any := fix any (l : list stmt) : bool := match l with [] => false | x :: t => s_uses id x || any t end in
+  match s with
+  | SExpr e => e_uses id e
+  | SIf c t f => e_uses id c || any t || match f with Some fl => any fl | None => false end
+  | SImplies c b => e_uses id c || any b
+  | SUnique ids => existsb (Nat.eqb id) ids
+  | SSoft e => e_uses id e
+  end.
+(* every value a random field takes in some solution lies in its inferred domain; a field no constraint mentions ranges over
+   its whole type *)
+Definition domains_ok (c : scase) : bool :=
+  if negb (all_wt c) || (8192 <? space c) then true
+  else
+    let sols := filter (fun vals => match holds_all (sc_G c) (rho_of vals) (sc_hard c) with Some true => true | _ => false end)
+                       (all_assignments c) in
+    forallb (fun id =>
+      match nth id (sc_domains c) None with
+      | None => true
+      | Some d =>
+        negb (flag_of (sc_flags c) id) ||
+        (forallb (fun vals => in_dom d (nth id vals 0)) sols &&
+         (existsb (s_uses id) (sc_hard c) ||
+          match nth_error (sc_G c) id, nth id (sc_enum c) None with
+          | Some fd, None => forallb (in_dom d) (domain fd None)
+          | _, _ => true
+          end))
+      end) (seq 0 (length (sc_G c))).
+
 (* bit codes: 1 terms differ (A) ; 2 a hard statement is violated / value outside its type / enum (C01) ;
    4 a non-random field changed (C03) ; 8 outcome contradicts satisfiability or other exception (C02) ;
-   16 variables / constants differ from the model's random flags (A3) ; 32 callbacks differ (C17) *)
+   16 variables / constants differ from the model's random flags (A3) ; 32 callbacks differ (C17) ;
+   64 soft terms / their order differ from the model (A, C05) ; 128 a violated soft constraint could have been honoured (C05) ;
+   256 a feasible value lies outside the inferred domain, or an unmentioned field's domain is not its whole type (C14) *)
 Definition s_check (c : scase) (do_sat : bool) : Z :=
   let a := if (2 <=? sc_outcome c) || terms_ok c then 0 else 1 in
   let b := if sc_outcome c =? 0
@@ -155,4 +245,6 @@ Definition s_check (c : scase) (do_sat : bool) : Z :=
              | _ => 0
              end
            else 0 in
-  a + b + f + o + (if (2 <=? sc_outcome c) || flags_ok c then 0 else 16) + (if (2 <=? sc_outcome c) || callbacks_ok c then 0 else 32).
+  a + b + f + o + (if (2 <=? sc_outcome c) || flags_ok c then 0 else 16) + (if (2 <=? sc_outcome c) || callbacks_ok c then 0 else 32)
+  + (if (2 <=? sc_outcome c) || soft_terms_ok c then 0 else 64) + (if do_sat && negb (soft_values_ok c) then 128 else 0)
+  + (if do_sat && (sc_outcome c <? 2) && negb (domains_ok c) then 256 else 0).
